@@ -18,6 +18,9 @@ CCH = 'beartype/_util/cache/utilcachecall.py'
 C3119 = 'beartype/_util/cls/pep/clspep3119.py'
 CONV = 'beartype/_check/convert/convmain.py'
 U484 = 'beartype/_util/hint/pep/proposal/pep484/pep484union.py'
+REDMAIN = 'beartype/_check/convert/_reduce/redmain.py'
+D586 = 'beartype/door/_cls/pep/doorpep586.py'
+COERCE = 'beartype/_check/convert/_convcoerce.py'
 FLOOR_APPLIED = 10
 
 
@@ -33,6 +36,17 @@ def _prepend(tree, scope, code):
     i = 1 if (isinstance(fn.body[0], ast.Expr) and isinstance(getattr(fn.body[0], 'value', None), ast.Constant)) else 0
     fn.body[i:i] = stmts(code)
     return tree
+
+
+def _hoist_first_of_try(tree, scope):
+    fn = find_def(tree, scope)
+    if fn is None:
+        return False
+    for i, st in enumerate(fn.body):
+        if isinstance(st, ast.Try) and st.body:
+            fn.body.insert(i, st.body.pop(0))
+            return bool(st.body)
+    return False
 
 
 VARIANTS = {
@@ -85,6 +99,17 @@ VARIANTS = {
     'n-tuple-union-factory-broad-handler': tneutral(U484, lambda t: replace_where(
         t, lambda n: isinstance(n, ast.ExceptHandler) and n.type is not None and ast.unparse(n.type) == 'TypeError',
         lambda n: (setattr(n, 'type', expr('Exception')) or n), scope='make_hint_pep484_union')),
+    # ---- R14: hint-keyed lookups ------------------------------------------------------------------------------------
+    'override-lookup-outside-its-guard': tseeded(REDMAIN, lambda t: _hoist_first_of_try(t, '_reduce_hint_overrides'), 'C11.R14',
+                                                 'Annotated[int, []] under a configuration with overrides: bare TypeError (seeded C11-21)'),
+    'literal-subhint-hashes-raw-args': tseeded(D586, lambda t: replace_where(
+        t, lambda n: isinstance(n, ast.Return), lambda n: stmts('return frozenset(self._args).issubset(other._args)')[0],
+        scope='LiteralTypeHint._is_subhint', nth=-1 if False else 0), 'C11.R14', 'is_subhint(Literal[[1]], Literal[1]) raises a bare TypeError (seeded C11-22)'),
+    'binary-dunder-return-widened-before-coercion': tseeded(COERCE, lambda t: replace_where(
+        t, lambda n: isinstance(n, ast.Return) and isinstance(n.value, ast.Call) and ast.unparse(n.value.func) == 'make_hint_pep484_union',
+        lambda n: stmts('return Union[hint, NotImplementedType]')[0], scope='coerce_func_hint_root') and (
+        t.body.insert(1, stmts('from typing import Union')[0]) or True), 'C11.R13',
+        'the defect repaired by the fix commit (F25), reintroduced'),
     # ---- neutral ---------------------------------------------------------------------------------------------------
     'n-roundtrip-conftest': roundtrip(CT),
     'n-roundtrip-checkmake': roundtrip(CMK),
